@@ -20,6 +20,7 @@ func Setup_C05_deferOnce()  { Setup_C13_defer() }
 func Harness_C05_cancelList() {
 	doc := mustLoad(`{ users { id best { id } } me { friends { id boss { id } } } }`)
 	w := newWorld(0, false)
+	w.cancels = true
 	w.outs["/Query.users"] = ref.Out{List: users("users[0]", "users[1]", "users[2]")}
 	w.outs["me/User.friends"] = ref.Out{List: users("me.friends[0]", "me.friends[1]")}
 	ctx, cancel := context.WithCancel(context.Background())
@@ -53,6 +54,7 @@ func Harness_C05_deferOnce() {
 		vars[v] = true
 	}
 	w := newWorld(0, false)
+	w.cancels = true
 	doc := c13Docs[fi]
 	ctx, cancel := context.WithCancel(context.Background())
 	got := runOpCtx(ctx, 1, w, doc, doc.Operations[0], vars)
@@ -77,6 +79,7 @@ func Harness_C05_deferCancel() {
 		vars[v] = true
 	}
 	w := newWorld(0, false)
+	w.cancels = true
 	doc := c13Docs[fi]
 	ctx, cancel := context.WithCancel(context.Background())
 	at := zzsym.Choice("cancelAt", 7) // 0 never; 1..3 inside the k-th resolver call; 4..6 after the (k-3)-th payload
